@@ -1,1 +1,2 @@
 import Generated.HelperTable
+import Generated.IoAliases
